@@ -303,7 +303,6 @@ func (c *ShadowStreamClientConn) initRead(b []byte) (payloadLen int, err error) 
 	if err != nil {
 		return 0, err
 	}
-	c.ShadowStreamConn.readCipher = shadowStreamCipher
 
 	// Open sealed response header.
 	plaintext, err := shadowStreamCipher.DecryptInPlace(ciphertext)
@@ -316,6 +315,10 @@ func (c *ShadowStreamClientConn) initRead(b []byte) (payloadLen int, err error) 
 	if err != nil {
 		return 0, err
 	}
+
+	// Only a validated response header establishes the read side.
+	// A refused response must not leave the connection looking initialized.
+	c.ShadowStreamConn.readCipher = shadowStreamCipher
 
 	return payloadLen, nil
 }
